@@ -318,3 +318,52 @@ Proof.
     destruct (fetch_url_each_attempt _ _ _ _ _ _ _ _ _ _ _ H Ho) as (dec & sc & r' & _ & HA).
     apply attempt_decoded_cap in HA as [_ HA]. eauto.
 Qed.
+
+(* ---- the total over all range tasks of one attempt ---- *)
+Definition sumZ (l : list Z) : Z := fold_right Z.add 0 l.
+Definition range_size (rg : Z * Z) : Z := snd rg - fst rg + 1.
+(* upper bound on what one task created for chunk ck can take (C31_bytes_read_le_cap_plus_chunk, last conjunct) *)
+Definition task_cap (ranges : list (Z * Z)) (maxf : Z) (ck : nat) : Z :=
+  Z.min (range_size (nth ck ranges (0, 0))) maxf + 1.
+
+Lemma sumZ_app : forall a b, sumZ (a ++ b) = sumZ a + sumZ b.
+Proof. induction a as [|x a IH]; intros b; simpl; [lia | rewrite IH; lia]. Qed.
+
+Lemma covers_sum : forall rs lo hi, covers lo hi rs -> sumZ (map range_size rs) = hi - lo.
+Proof.
+  induction rs as [|[s e] r IH]; intros lo hi H; simpl in H; simpl.
+  - lia.
+  - destruct H as (Hs & Hle & Hr). rewrite (IH _ _ Hr). unfold range_size. simpl. lia.
+Qed.
+
+Lemma map_nth_seq : forall (l : list (Z * Z)) d, map (fun i => nth i l d) (seq 0 (length l)) = l.
+Proof.
+  induction l as [|x l IH]; intros d; simpl; [reflexivity|].
+  f_equal. rewrite <- seq_shift, map_map. apply IH.
+Qed.
+
+Lemma total_range_bytes_bound : forall z chunk maxf hedged,
+  0 < chunk -> 0 <= z <= maxf ->
+  let ranges := compute_ranges z chunk in
+  let n := length ranges in
+  Forall (fun ck => (ck < n)%nat) hedged ->
+  sumZ (map (task_cap ranges maxf) (seq 0 n ++ hedged)) <= maxf + Z.of_nat n + len hedged * (chunk + 1).
+Proof.
+  intros z chunk maxf hedged Hc Hz ranges n Hh.
+  rewrite map_app, sumZ_app.
+  destruct (compute_ranges_covers z chunk Hc ltac:(lia)) as [Hcov Hsz]. fold ranges in Hcov, Hsz.
+  assert (H1 : sumZ (map (task_cap ranges maxf) (seq 0 n)) <= z + Z.of_nat n).
+  { assert (G : forall l, sumZ (map (fun rg => Z.min (range_size rg) maxf + 1) l) <= sumZ (map range_size l) + len l).
+    { induction l as [|x l IH]; cbn [map sumZ fold_right]; [unfold len; simpl; lia | rewrite len_cons; fold (sumZ (map (fun rg => Z.min (range_size rg) maxf + 1) l)); fold (sumZ (map range_size l)); lia]. }
+    assert (E : map (task_cap ranges maxf) (seq 0 n) = map (fun rg => Z.min (range_size rg) maxf + 1) ranges).
+    { rewrite <- (map_nth_seq ranges (0, 0)) at 2. rewrite map_map. reflexivity. }
+    rewrite E. specialize (G ranges). rewrite (covers_sum _ _ _ Hcov) in G. unfold len in G. unfold n. lia. }
+  assert (H2 : sumZ (map (task_cap ranges maxf) hedged) <= len hedged * (chunk + 1)).
+  { clear H1. induction hedged as [|ck h IH]; cbn [map sumZ fold_right]; [unfold len; simpl; lia|].
+    fold (sumZ (map (task_cap ranges maxf) h)).
+    inversion Hh as [|? ? Hck Hh']; subst. specialize (IH Hh'). rewrite len_cons.
+    assert (range_size (nth ck ranges (0, 0)) <= chunk).
+    { rewrite Forall_forall in Hsz. apply (Hsz (nth ck ranges (0, 0))). apply nth_In. exact Hck. }
+    change (task_cap ranges maxf ck) with (Z.min (range_size (nth ck ranges (0, 0))) maxf + 1). nia. }
+  lia.
+Qed.
